@@ -1,6 +1,8 @@
 """Per-property configuration of the driver: which engine invocations decide a property, evidence
 level, floors (a run that observed less is inconclusive, not green)."""
 
+import custom
+
 ORDER = []
 PROPS = {}
 
@@ -503,4 +505,93 @@ prop(
     rule="one evaluation = one library result (multiply / multiply_into / fft-product-fft_inv / fft_into / fft_inv_into) compared "
          "with the exact oracle; distinct_nontrivial = distinct inputs with both lengths >= 2 and magnitude >= 2.",
     assumptions=["inputs lie inside the intersection envelope described in level_note"],
+)
+
+
+prop(
+    "C17",
+    level="exploration",
+    engines=["racemon"],
+    setup_runs=[dict(engine="racemon", profile="release")],
+    technique="sanitizers + history checker: the same share-nothing thread workload observed by Miri's data-race detector "
+              "(many seeds), by ThreadSanitizer (nightly, -Zbuild-std, real threads) and by a native priority-stream "
+              "history checker calibrated against a sequential reference stream",
+    level_text="Exploration of schedules: (1) Miri, whose happens-before race detector reports the unsynchronised access "
+               "whenever two threads touch shared state without synchronisation, over 16 (quick) / 128 (thorough) seeded "
+               "schedules of 3-5 threads creating nodes through TreapNode::new, Treap::from_item and insert_at and "
+               "splitting/merging their own treaps; (2) ThreadSanitizer over 3-5 runs of 9 real threads x 10^5 creations; "
+               "(3) natively, 8 threads x 6*10^5 creations x 2 rounds with staggered starts: every thread's treap results "
+               "must equal the same operations run alone, and its recorded priority stream must be the one a sequential "
+               "execution produces (per-thread model) or all streams together must partition the sequential stream with "
+               "no draw lost or duplicated (process-global model) - the model is decided by a sequential calibration phase "
+               "against a reference stream drawn in a fresh process.",
+    level_note="Trusted: Miri and TSan themselves; the calibration (if the reference stream is not reproducible or matches "
+               "neither model the history sub-check declares itself not applicable and the verdict rests on the two "
+               "sanitizers). Schedules are sampled, not enumerated; Miri workloads are small.",
+    custom=custom.c17_custom,
+    setup=custom.c17_setup,
+    replay=custom.c17_replay,
+    floor=dict(quick=20, thorough=100),
+    counter_floors=dict(quick=dict(miri_runs_completed_clean=16, tsan_runs_clean=3, node_creations=9_000_000, streams_checked=2,
+                                   overlapping_thread_pairs=40)),
+    rule="one evaluation = one completed clean execution observed by a race detector (one Miri seed, one TSan run) or one "
+         "contention round of the native history checker; distinct_nontrivial = distinct Miri seeds + TSan runs + rounds "
+         "(every execution has at least two threads creating nodes at overlapping times; overlapping_thread_pairs is measured).",
+    assumptions=["threads share no treap"],
+)
+
+prop(
+    "C18",
+    level="exploration",
+    engines=["f80mon"],
+    setup_runs=[dict(engine="f80mon", profile="release")],
+    technique="offline checker over a recorded event log + online x87 state monitor: every real f80 operation is logged with "
+              "operand and result bit patterns and replayed with exact integer/rational arithmetic (round-to-nearest-even "
+              "to 64 bits, x87 exponent range, IEEE special cases); tag word / control word checked around every call",
+    level_text="Exploration with an exhaustive sub-space: all ordered pairs of a boundary set of 178 f64 bit patterns (zeros, "
+               "min/max subnormal, min normal, powers of two and both neighbours, 2^53+-1, long carry chains, 1/3-like "
+               "patterns, huge/tiny exponents, infinities, NaN) under + - * / and their assigning forms, min, max, "
+               "all six relations and partial_cmp; negation, abs and both conversions for every element; 25 000 random "
+               "bit-pattern pairs and 20 000 chains of depth 2-4 whose intermediates need all 64 significand bits "
+               "(x10 in thorough). Natively only: Miri cannot execute inline assembly and valgrind emulates x87 with 64-bit doubles.",
+    level_note="Trusted: the Python oracle (exact big-integer arithmetic) and the assumption, checked at start-up, that the x87 "
+               "control word selects extended precision and round-to-nearest. Not judged because the property speaks about "
+               "values: the sign of a zero result, the NaN encoding, and which operand min/max return when one is NaN.",
+    custom=custom.c18_custom,
+    replay=custom.c18_replay,
+    floor=dict(quick=700_000, thorough=5_000_000),
+    counter_floors=dict(quick=dict(x87_state_checks=1_000_000, op_rel=70_000, op_div=50_000, relations_with_nan=500, relations_signed_zeros=4,
+                                   results_subnormal=100, operand_class_combinations=140)),
+    rule="one evaluation = one logged event (operation + operand bit patterns + result) replayed by the oracle; "
+         "distinct_nontrivial = distinct (operation, operand class, operand class) combinations over the classes zero / "
+         "subnormal / normal / inf / nan observed in the log.",
+    assumptions=["x87 control word 0x037f (extended precision, round to nearest), verified at start-up"],
+)
+
+prop(
+    "C20",
+    level="exploration",
+    engines=["lambdagen"],
+    exhaustive_all=True,
+    setup_runs=[dict(engine="lambdagen", profile="release")],
+    technique="generated programs + trace comparison: a generator emits one function per macro shape containing the "
+              "rec_lambda! closure and the equivalent hand-written recursion; the crate is compiled against the working "
+              "tree and each pair is compared on return value, final capture state and recursion trace",
+    level_text="Exhaustive over the shape grid: every sequence of 0..=4 captures over {&T, &mut T} (31 patterns, every order "
+               "and interleaving) x 1..=4 arguments x {return type, none} x {f!(a,b), f!(a,b,)} = 496 shapes, each with four "
+               "body variants (linear recursion, two recursive calls in one expression, non-integer capture types, mixed "
+               "argument types with nested calls) = 1968 generated functions, compiled with the real macro and executed on "
+               "6 inputs each; a compile error is mapped back to the shape it points into and reported as a violation of "
+               "'compiles'.",
+    level_note="Trusted: the generator's hand-written twin (same body text with the macro call replaced by a direct call "
+               "passing the captures along). A compile failure that cannot be mapped into a generated shape is "
+               "inconclusive. Shapes beyond 4 captures / 4 arguments and capture types with lifetimes are not generated.",
+    custom=custom.c20_custom,
+    setup=custom.c20_setup,
+    floor=dict(quick=11_000, thorough=11_000),
+    counter_floors=dict(quick=dict(shapes_executed=1968, capture_patterns=31, grid_cells=496)),
+    rule="one evaluation = one (shape, input) comparison of the macro closure with its hand-written twin; "
+         "distinct_nontrivial = distinct shapes with >= 2 captures or >= 3 arguments or trailing-comma call syntax (the "
+         "shapes the pinned tests never expand).",
+    assumptions=["supported invocation space: captures ident: &T / ident: &mut T, at least one argument, optional return type"],
 )
